@@ -17,14 +17,38 @@ Theorem T20_0_skip_regex :
 Proof. exact skip_search_iff. Qed.
 Print Assumptions T20_0_skip_regex.
 
-(* T20.1 skip_file: a skip-file comment on ANY physical line of the source (however the line is
-   delimited: \n, \r\n, \r, \f, \v, \x1c-\x1e, \x85, U+2028, U+2029) makes format_code return its input,
-   whatever the rest of the pipeline would have done. *)
+(* T20.1 skip_file: a skip-file comment on ANY physical line of the source makes format_code return its
+   input, whatever the rest of the pipeline would have done.  T20_1b: the same for the finer pieces of
+   str.splitlines (\f, \v, \x1c-\x1e, \x85, U+2028, U+2029 as delimiters too). *)
 Theorem T20_1_skip_file_identity :
   forall (rest : text -> text) src l,
     In l (split_lines src) -> Occurs [SKIP_FILE] l -> format_code_head rest src = src.
 Proof. exact skip_line_returns_source. Qed.
 Print Assumptions T20_1_skip_file_identity.
+
+Theorem T20_1b_skip_file_identity_strlines :
+  forall (rest : text -> text) src l,
+    In l (str_splitlines src) -> Occurs [SKIP_FILE] l -> format_code_head rest src = src.
+Proof. exact skip_strline_returns_source. Qed.
+Print Assumptions T20_1b_skip_file_identity_strlines.
+
+(* T20.2 line structure (hunt C20-2/3/4, C10-2, C14-10, C01-a-19, C01-b-23, C03-3, C03-7): the lines of
+   core.split_lines -- used by has_ignore_comment, _do_rewrite, _insert_nodes, _fix_undefined_variables
+   after the repairs -- are the tokenizer's physical lines: each is a body without \r and \n followed
+   by exactly one of \n, \r, \r\n, except possibly the last, which may be unterminated; and they
+   concatenate to the source.  str.splitlines is NOT that structure (T20_2_refuted: "a\x0cb\n"). *)
+Theorem T20_2_line_breaks_are_eol : forall s, py_lines (split_lines s).
+Proof. exact split_lines_py_lines. Qed.
+Print Assumptions T20_2_line_breaks_are_eol.
+
+Theorem T20_2_lines_concat : forall s, concat (split_lines s) = s.
+Proof. exact split_lines_concat. Qed.
+Print Assumptions T20_2_lines_concat.
+
+Theorem T20_2_refuted_for_str_splitlines :
+  exists s, str_splitlines s <> split_lines s /\ ~ py_lines (str_splitlines s).
+Proof. exact str_splitlines_not_py_lines. Qed.
+Print Assumptions T20_2_refuted_for_str_splitlines.
 
 (* T20.3a scheduler non-interference: for every rule set, yield order and transaction assignment, no
    scheduled rewrite touches a line that carries an ignore comment. *)
@@ -36,17 +60,33 @@ Theorem T20_3a_scheduled_not_ignored :
 Proof. exact scheduled_not_ignored. Qed.
 Print Assumptions T20_3a_scheduled_not_ignored.
 
-(* T20.3b the line survives: for every source, every physical line l of it that matches the ignore
-   regex, and every chain of rewrites none of which has_ignore_comment, the simultaneous splice (=
-   the sequential application, by C10/T10.4) contains l verbatim and contiguous. *)
+(* T20.3b the line survives: for every source, every tokenizer verdict, every physical line l that
+   protects (its text matches the regex and the tokenizer confirms a comment on it, or the tokenizer
+   failed), and every chain of rewrites none of which has_ignore_comment -- empty ranges (insertions)
+   included --, the simultaneous splice (= the sequential application, by C10/T10.4) contains l verbatim,
+   terminator included, and contiguous. *)
 Theorem T20_3b_ignored_line_survives :
-  forall (src : text) (rws : list (range * text)) (r : range) (l : text),
-    In (r, l) (line_ranges 0 (split_lines src)) -> ignore_line l = true ->
+  forall (src : text) (coms : option (list nat)) (rws : list (range * text)) (r : range) (l : text),
+    In (r, l) (ignore_entries src coms) ->
     chain_ok N (length src) 0 (map (to_nrw N) rws) ->
-    (forall rw, In rw rws -> (0 <= fst (fst rw))%Z /\ has_ignore src (fst rw) = false) ->
+    (forall rw, In rw rws -> (0 <= fst (fst rw))%Z /\ has_ignore src coms (fst rw) = false) ->
     exists pre post, build N 0 src (map (to_nrw N) rws) = pre ++ l ++ post.
 Proof. exact ignored_line_survives. Qed.
 Print Assumptions T20_3b_ignored_line_survives.
+
+(* T20.3d (hunt C10-3) the repaired recogniser refuses everything that overlap with an ignored line
+   refuses (so T20.3a, stated with the C10 scheduler model, still describes the code), and also the
+   insertion at the first column of an ignored line, which overlap alone does not see. *)
+Theorem T20_3d_has_ignore_extends_overlap : forall src coms r,
+  ignored (map fst (ignore_entries src coms)) r = true -> (fst r <> snd r) -> has_ignore src coms r = true.
+Proof. exact has_ignore_extends_overlap. Qed.
+Print Assumptions T20_3d_has_ignore_extends_overlap.
+
+Example T20_3d_insertion_at_line_start :
+  let src := [120; 32; 35; 112; 121; 114; 101; 102; 97; 99; 116; 58; 105; 103; 110; 111; 114; 101; 10; 121; 10]%N in
+  ignored (map fst (ignore_entries src None)) (0, 0)%Z = false /\ has_ignore src None (0, 0)%Z = true
+  /\ has_ignore src None (19, 19)%Z = false.
+Proof. exact insertion_at_line_start. Qed.
 
 (* generic form: any segment no rewrite overlaps (insertions at its edges allowed) survives *)
 Theorem T20_3c_untouched_segment_survives :
